@@ -27,7 +27,7 @@ ASSUMPTIONS = ["start_pos is legal: in range and no presented element of the req
 
 @st.composite
 def request(draw, shape):
-    op = draw(st.sampled_from(["iterOccupancy", "iterRange", "iterRange", "iterActive", "iterShape",
+    op = draw(st.sampled_from(["lazy_range", "iterOccupancy", "iterRange", "iterRange", "iterActive", "iterShape",
                                "iterActiveShape", "iterRangeShape", "iterShapeRef", "iterActiveShapeRef",
                                "iterRangeShapeRef", "iter", "coiter", "coiter", "project", "project", "project",
                                "prune", "lazy", "lazy"]))
@@ -39,7 +39,13 @@ def request(draw, shape):
         r["e"] = draw(st.one_of(st.none(), st.just(hi)))
     if op in ("iterRangeShape", "iterRangeShapeRef"):
         r["s"], r["e"] = max(lo, 0), hi
-        r["step"] = draw(st.sampled_from([1, 1, 2, 3]))
+        r["step"] = draw(st.sampled_from([1, 1, 2, 3, -1, -2]))
+        if r["step"] < 0:
+            r["s"], r["e"] = min(hi, shape - 1), max(lo, 0) - 1       # a descending range
+    if op == "lazy_range":
+        r["k"] = draw(st.integers(0, 6))
+        r["s"] = draw(st.sampled_from([0, 0, 1, -1, None]))
+        r["e"] = draw(st.one_of(st.none(), st.integers(-2, 8)))
     if op == "coiter":
         r["kind"] = draw(st.sampled_from(["Shape", "ActiveShape", "RangeShape"]))
         r["ref"] = draw(st.booleans())
@@ -302,6 +308,16 @@ def check(case, rec):
             rec.cls("project-interval", iv is not None)
             if m < 0 and iv is not None and want:
                 interesting = True
+        elif op == "lazy_range":
+            # a range over a lazily projected fiber, which may hold negative coordinates
+            k = r["k"]
+            lazy = f.project(trans_fn=lambda c, k=k: c - k)
+            pres = [(c - k, i) for c, i in S.occ()]
+            want = [(c, i) for c, i in pres if (r["s"] is None or c >= r["s"]) and (r["e"] is None or c < r["e"])]
+            for rep in range(2):
+                S.compare(pyl(lazy.iterRange(r["s"], r["e"])), want, f"project(c-{k}).iterRange({r['s']},{r['e']})")
+            S.unchanged("lazy_range")
+            rec.cls("negative-coordinates", any(c < 0 for c, _ in pres))
         elif op == "prune":
             keep = r["keep"]
             pres = S.occ()
@@ -374,3 +390,12 @@ def _pin_p9a():
 
 
 PINNED = {"P9a-project-all-default-stopiteration": _pin_p9a}
+
+
+def _pin_p34():
+    f = Fiber([4], [0], shape=8, default=2)
+    got = [c for c, _ in f.project(trans_fn=lambda c: -c)]
+    return None if got == [-4] else f"Fiber([4],[0],default=2).project(c -> -c) yields {got}, expected [-4]"
+
+
+PINNED["P34-reversed-project-drops-zero-with-nonzero-default"] = _pin_p34
